@@ -132,7 +132,7 @@ R(op, xs) ==
                        LAMBDA e : \A q \in 1..(e[1] - 1) : ks[q] # ks[e[1]])
       [] op.op = "duc"       -> LET ks == KeysOf(op.f, xs) IN
              SelectSeq([j \in 1..n |-> <<j, xs[j]>>],
-                       LAMBDA e : e[1] = 1 \/ ks[e[1]] # ks[e[1] - 1])
+                       LAMBDA e : e[1] = 1 \/ NeqV(ks[e[1]], ks[e[1] - 1]))
       [] op.op = "lag"       -> [j \in 1..n |-> TupV(<<xs[Max2(1, j - op.n)], xs[j]>>)]
       [] op.op = "pad_start" -> IF n = 0 THEN <<>>
                                 ELSE Rep(IF IsNone(op.v) THEN xs[1] ELSE op.v, op.n) \o xs
@@ -200,13 +200,19 @@ Windows(w, s, n) ==
             en == Min2(st + w - 1, n)
         IN Child(st, Range1(st, en), IF st + w - 1 <= n THEN st + w - 1 ELSE 0)]
 
-RunStarts(pv) == SelectSeq(Range1(1, Len(pv)), LAMBDA j : j = 1 \/ pv[j] # pv[j - 1])
+RunStarts(pv) == SelectSeq(Range1(1, Len(pv)), LAMBDA j : j = 1 \/ NeqV(pv[j], pv[j - 1]))
 
+(* A criterion that is unequal to itself (NaN) starts a run with every item.  As the very
+   first criterion of a key it also differs from "the criterion of the first item", with
+   which split initialises its state: the code then opens a segment, closes it at once and
+   opens the next one - an empty child created and closed in the step of item 1, modelled
+   here as it is. *)
 Runs(pv) ==
-    LET ss == RunStarts(pv) n == Len(pv) IN
-    [q \in 1..Len(ss) |->
-        LET en == IF q < Len(ss) THEN ss[q + 1] - 1 ELSE n
-        IN Child(ss[q], Range1(ss[q], en), IF q < Len(ss) THEN ss[q + 1] ELSE 0)]
+    LET ss == RunStarts(pv) n == Len(pv)
+        runs == [q \in 1..Len(ss) |->
+                   LET en == IF q < Len(ss) THEN ss[q + 1] - 1 ELSE n
+                   IN Child(ss[q], Range1(ss[q], en), IF q < Len(ss) THEN ss[q + 1] ELSE 0)]
+    IN IF n > 0 /\ IsNaN(pv[1]) THEN <<Child(1, <<>>, 1)>> \o runs ELSE runs
 
 Groups(kv) ==
     LET firsts == SelectSeq(Range1(1, Len(kv)), LAMBDA j : \A q \in 1..(j - 1) : kv[q] # kv[j])
